@@ -34,6 +34,9 @@ vars == <<opened, sent, wire, rbuf, wfin, rfin, delivered, eof, loose, cut, dead
 View == <<opened, sent, wire, rbuf, wfin, rfin, delivered, eof, loose, cut, dead, failed>>
 
 Min(a, b) == IF a < b THEN a ELSE b
+\* (once the connection is dead the readers come to their terminal outcomes in one fixed order: the order is
+\* immaterial and every interleaving of it would only multiply the graph)
+Before(c2, c) == c2[1] < c[1] \/ (c2[1] = c[1] /\ c2[2] = "ab" /\ c[2] = "ba")
 NoCut == [d |-> "none", left |-> 0, kind |-> "none"]
 IsPrefix(s, t) == Len(s) <= Len(t) /\ \A i \in 1..Len(s) : s[i] = t[i]
 SentSeq(c) == [i \in 1..sent[c] |-> i]
@@ -95,6 +98,7 @@ Pump(d) ==
 Read(s, d, b) ==
   LET c == <<s, d>> IN
   /\ s \in opened /\ ~eof[c] /\ ~failed[c]
+  /\ dead => \A c2 \in Chans : Before(c2, c) => (eof[c2] \/ failed[c2] \/ c2[1] \notin opened)
   /\ \/ /\ rbuf[c] # <<>>
         /\ LET n == Min(b, Len(rbuf[c])) IN
              /\ delivered' = [delivered EXCEPT ![c] = @ \o SubSeq(rbuf[c], 1, n)]
